@@ -19,7 +19,7 @@ TECHNIQUE = (
 RULE = (
     "nosource: plain = all strings <= 5 over {a,b,' '} x all ordered tuples of <= 2 (quick) / 3 (thorough, |plain| <= 4) spans; "
     "forced: plains of distinct and repeated letters x all placements of <= k insertions from {<i>,</i>,<b>,</b>,\\n,\\t\\t} x "
-    "all <= 2-span tuples x 2 engines; the same for periodic plains (abababab, ...) with <= 2 (quick) / 3 insertions from {\\t,<i>}; long: 3 plain texts of > 200 characters (one made of repeated identical lines) x 4 insertion patterns (repeated lines: + insertions on every subset of <= 2 lines) x all word-run spans "
+    "all <= 2-span tuples x 2 engines; the same for periodic plains (abababab, ...) with <= 2 (quick) / 3 insertions from {\\t,<i>}; long: 3 plain texts of > 200 characters (one made of repeated identical lines) x 4 insertion patterns (repeated lines: + insertions on every subset of <= 3 lines) x all word-run spans "
     "and adjacent pairs x 2 engines; updater: all ordered pairs of strings <= 4 over {x,y,<} x 2 engines x 2 bisect "
     "functions x all offsets. non-trivial = >= 1 annotation that is non-empty and not overlapped by an earlier one."
 )
@@ -134,10 +134,10 @@ def long_sources(plain):
         yield ("tab-before-digit",) + build(lambda i: "\t" if i < n and plain[i].isdigit() and (i == 0 or not plain[i - 1].isdigit()) else "")
         yield ("q-on-every-line",) + build(lambda i: ("</q>" if i < n and plain[i] == "\n" else "") + ("<q>" if i == 0 or (i < n and plain[i - 1] == "\n") else ""))
         yield ("tab-on-two-lines",) + build(lambda i: "\t\t" if i in (5, 43) else "")
-        # insertions on every subset of <= 2 lines (the other lines stay byte-identical to the plain text, and to
+        # insertions on every subset of <= 3 lines (the other lines stay byte-identical to the plain text, and to
         # each other): line-level heuristics of a diff engine must not mis-align repeated lines
         line_starts = [0] + [i + 1 for i, c in enumerate(plain) if c == "\n" and i + 1 < n]
-        for k in (1, 2):
+        for k in (1, 2, 3):
             for sub in itertools.combinations(range(len(line_starts)), k):
                 marks = {}
                 for li in sub:
@@ -250,7 +250,9 @@ def run_shard(sh):
         spans = word_spans(plain)
         for name, source, pos in long_sources(plain):
             # all single word-run spans + all adjacent pairs, both engines (difflib switches heuristics on at 200 characters)
-            sets = [(sp,) for sp in spans] + [(a, b) for a in spans for b in spans if a[1] < b[0] and b[0] - a[1] <= 2]
+            sets = [(sp,) for sp in spans]
+            if not name.startswith("lines-") or name.count(",") < 2:  # three-line subsets: single spans only
+                sets += [(a, b) for a in spans for b in spans if a[1] < b[0] and b[0] - a[1] <= 2]
             for ss in sets[sh["r"] :: sh["n"]]:
                 run(plain, source, pos, ss, ("unchecked",), (True, False))
         return st
